@@ -355,9 +355,14 @@ func (t *thread) apply(opts *execOpts) error {
 	t.dstack = newStack(t.cfg, t.hasFlag(scriptflag.VerifyMinimalData))
 	t.astack = newStack(t.cfg, t.hasFlag(scriptflag.VerifyMinimalData))
 
-	if t.tx != nil {
-		t.tx.InputIdx(t.inputIdx).PreviousTxScript = t.prevOutput.LockingScript
-		t.tx.InputIdx(t.inputIdx).PreviousTxSatoshis = t.prevOutput.Satoshis
+	// Record the spent output on the checked input. Without a previous output
+	// (scripts supplied directly) there is nothing to record; signature checks
+	// are rejected by the parser in that case.
+	if t.tx != nil && t.prevOutput != nil {
+		if in := t.tx.InputIdx(t.inputIdx); in != nil {
+			in.PreviousTxScript = t.prevOutput.LockingScript
+			in.PreviousTxSatoshis = t.prevOutput.Satoshis
+		}
 	}
 
 	t.state = t
